@@ -543,6 +543,11 @@ func (c *client) receive(r io.Reader) (err error) {
 	if header.CellBlockMeta != nil {
 		cellsLen = header.CellBlockMeta.GetLength()
 	}
+	if cellsLen > size {
+		err = RetryableError{fmt.Errorf(
+			"cellblocks length %d is greater than the response size %d", cellsLen, size)}
+		return
+	}
 	if d, ok := rpc.(canDeserializeCellBlocks); cellsLen > 0 && ok {
 		b := b[size-cellsLen:]
 		if c.compressor != nil {
